@@ -926,11 +926,18 @@ def int_mm(E, a, b, node=None):
     from . import cap
     if a.device.type == "cpu":
         cls = cap.int_mm_exact_classes()
-        b_is_view = b.imap is not None or b.strides is not None
-        if not cls.get((True, True), True) and b_is_view:
-            E.oblige("int_mm-exact-on-this-build: inner size 1 with a transposed second operand is miscomputed", zi(a.shape[1]) != 1, kind="torch-pre", node=node)
-        if not cls.get((True, False), True) and not b_is_view:
-            E.oblige("int_mm-exact-on-this-build: inner size 1 is miscomputed", zi(a.shape[1]) != 1, kind="torch-pre", node=node)
+        # layout classes an operand may be in: permuted strides -> a transposed view; a reshape / identity view of a contiguous tensor is
+        # contiguous (for the second operand a stride-less view is conservatively taken to be in either class, as before)
+        a_cls = {True} if a.strides is not None else {False}
+        b_cls = {True} if b.strides is not None else ({True, False} if b.imap is not None else {False})
+        n_, k_, p_ = zi(a.shape[0]), zi(a.shape[1]), zi(b.shape[1])
+        for (a_t, b_t, n1, k1, p1), exact in sorted(cls.items()):
+            if exact or a_t not in a_cls or b_t not in b_cls:
+                continue
+            what = ", ".join(f"{nm} {'==' if one else '>'} 1" for nm, one in (("rows", n1), ("inner size", k1), ("columns", p1)))
+            lay = ("a transposed first operand" if a_t else "a contiguous first operand") + (" and a transposed second operand" if b_t else " and a contiguous second operand")
+            E.oblige(f"int_mm-exact-on-this-build: {what} with {lay} is miscomputed",
+                     z3.Not(z3.And(n_ == 1 if n1 else n_ > 1, k_ == 1 if k1 else k_ > 1, p_ == 1 if p1 else p_ > 1)), kind="torch-pre", node=node)
     return matmul(E, to_dtype(E, a, "int32"), to_dtype(E, b, "int32"), node)
 
 
